@@ -52,6 +52,8 @@ def main():
     chk.only = a.only
     try:
         mod.run(chk)
+    except SystemExit:
+        raise
     except BaseException:
         # a harness error (e.g. DIVERGENCE) is fatal either way, but violations already on record are still reported
         import traceback
